@@ -410,4 +410,44 @@ void rcu_list<T, M, Alloc>::emplace_back"""}]},
     {"name": "def-load-no-lock", "props": ["C15"], "edits": [{"file": "gmlc/libguarded/deferred_guarded.hpp",
         "old": "        auto handle = lock_shared();\n        T newObj(*handle);\n        return newObj;\n    }\n\n  private:\n    void do_pending_writes() const;",
         "new": "        T newObj(m_obj);\n        return newObj;\n    }\n\n  private:\n    void do_pending_writes() const;"}]},
+
+    # ---------------------------------------------------------------- cow
+    {"name": "cow-copy-before-mutex", "props": ["C04"], "edits": [{"file": "gmlc/libguarded/cow_guarded.hpp",
+        "old": "    std::unique_lock<M> guard(m_writeMutex);\n\n    auto data(m_data.lock_shared());\n    std::unique_ptr<T> val(new T(**data));\n    data.reset();\n\n    return handle(val.release(), deleter(std::move(guard), *this));\n}\n\ntemplate<typename T, typename M>\nauto cow_guarded<T, M>::try_lock()",
+        "new": "    auto data(m_data.lock_shared());\n    std::unique_ptr<T> val(new T(**data));\n    data.reset();\n    std::unique_lock<M> guard(m_writeMutex);\n\n    return handle(val.release(), deleter(std::move(guard), *this));\n}\n\ntemplate<typename T, typename M>\nauto cow_guarded<T, M>::try_lock()"}]},
+    {"name": "cow-cancel-keeps-lock", "props": ["C04"], "edits": [{"file": "gmlc/libguarded/cow_guarded.hpp",
+        "old": "            m_cancelled = true;\n\n            if (m_lock.owns_lock()) {\n                m_lock.unlock();\n            }",
+        "new": "            m_cancelled = true;"},
+        {"file": "gmlc/libguarded/cow_guarded.hpp",
+        "old": "            if (m_cancelled) {\n                delete ptr;\n            } else if (ptr) {",
+        "new": "            if (m_cancelled) {\n                delete ptr;\n                return;\n            } else if (ptr) {"}]},
+    {"name": "cow-cancel-commits", "props": ["C04"], "edits": [{"file": "gmlc/libguarded/cow_guarded.hpp",
+        "old": "            if (m_cancelled) {\n                delete ptr;\n            } else if (ptr) {",
+        "new": "            if (m_cancelled && !ptr) {\n                delete ptr;\n            } else if (ptr) {"}]},
+    {"name": "cow-cancel-leaks", "props": ["C04"], "edits": [{"file": "gmlc/libguarded/cow_guarded.hpp",
+        "old": "            if (m_cancelled) {\n                delete ptr;\n            } else if (ptr) {",
+        "new": "            if (m_cancelled) {\n            } else if (ptr) {"}]},
+    {"name": "cow-unlock-before-publish", "props": ["C04"], "edits": [{"file": "gmlc/libguarded/cow_guarded.hpp",
+        "old": "            } else if (ptr) {\n                std::shared_ptr<const T> newPtr(ptr);\n",
+        "new": "            } else if (ptr) {\n                std::shared_ptr<const T> newPtr(ptr);\n                if (m_lock.owns_lock()) {\n                    m_lock.unlock();\n                }\n"}]},
+    {"name": "cow-shared-returns-writable", "props": ["C04"], "edits": [{"file": "gmlc/libguarded/cow_guarded.hpp",
+        "old": "    std::unique_ptr<T> val(new T(**data));\n    data.reset();\n\n    return handle(val.release(), deleter(std::move(guard), *this));\n}\n\ntemplate<typename T, typename M>\nauto cow_guarded<T, M>::try_lock()",
+        "new": "    std::unique_ptr<T> val(new T(**data));\n    data.reset();\n    m_data.modify([&val](std::shared_ptr<const T>& sptr) { sptr = std::shared_ptr<const T>(val.get(), [](const T*) {}); });\n\n    return handle(val.release(), deleter(std::move(guard), *this));\n}\n\ntemplate<typename T, typename M>\nauto cow_guarded<T, M>::try_lock()"}]},
+
+    # ---------------------------------------------------------------- C14
+    {"name": "lr-reader-takes-write-mutex", "props": ["C14"], "edits": [{"file": "gmlc/libguarded/lr_guarded.hpp",
+        "old": "auto lr_guarded<T, M>::lock_shared() const -> shared_handle\n{\n    if (m_countingLeft) {",
+        "new": "auto lr_guarded<T, M>::lock_shared() const -> shared_handle\n{\n    std::lock_guard<M> lock(m_writeMutex);\n    if (m_countingLeft) {"}]},
+    {"name": "cow-reader-takes-write-mutex", "props": ["C14"], "edits": [{"file": "gmlc/libguarded/cow_guarded.hpp",
+        "old": "auto cow_guarded<T, M>::lock_shared() const -> shared_handle\n{\n    auto slock = m_data.lock_shared();",
+        "new": "auto cow_guarded<T, M>::lock_shared() const -> shared_handle\n{\n    std::lock_guard<M> wl(m_writeMutex);\n    auto slock = m_data.lock_shared();"}]},
+    {"name": "rcu-begin-under-write-mutex", "props": ["C14"], "edits": [{"file": "gmlc/libguarded/rcu_list.hpp",
+        "old": "auto rcu_list<T, M, Alloc>::begin() const -> const_iterator\n{\n    return const_iterator(m_head.load());",
+        "new": "auto rcu_list<T, M, Alloc>::begin() const -> const_iterator\n{\n    std::lock_guard<M> guard(const_cast<M&>(m_write_mutex));\n    return const_iterator(m_head.load());"}]},
+    {"name": "lr-reader-spins-on-writer", "props": ["C14"], "edits": [{"file": "gmlc/libguarded/lr_guarded.hpp",
+        "old": "auto lr_guarded<T, M>::lock_shared() const -> shared_handle\n{\n    if (m_countingLeft) {",
+        "new": "auto lr_guarded<T, M>::lock_shared() const -> shared_handle\n{\n    while (m_readingLeft.load() != m_countingLeft.load()) {\n        std::this_thread::yield();\n    }\n    if (m_countingLeft) {"}]},
+    {"name": "lr-writer-waits-wrong-counter", "props": ["C14"], "edits": [{"file": "gmlc/libguarded/lr_guarded.hpp",
+        "old": "    m_countingLeft.store(!local_countingLeft);\n\n    if (local_countingLeft) {\n        while (m_leftReadCount.load() != 0) {",
+        "new": "    if (local_countingLeft) {\n        while (m_leftReadCount.load() != 0) {"}]},
 ]
